@@ -12,6 +12,7 @@ def canon_facts(f):
         return f
     f = dict(f)
     f.pop("why", None)
+    f.pop("enum_tables", None)
     if f.get("outcome") == "error":
         if f.get("stage") == "front":
             f["names"] = []
@@ -146,6 +147,10 @@ def correspond_gen(prop):
                     res.traces_validated += 1
                     if not eq:
                         res.model_disagreements.append({"case": slim(c), "diff": diff})
+            if mf is not None and af.get("outcome") == "ok" and mf.get("enum_tables"):
+                d = oracles.compare_enum_tables(af, mf)
+                if d:
+                    res.model_disagreements.append({"case": slim(c), "diff": d})
             # property oracle on the implementation (independent of the model)
             v = oracles.check(prop, c, a, mf)
             if v:
